@@ -262,8 +262,6 @@ def container_method(I, ref, name):
     P = I.P
     if isinstance(h, HList):
         def append(I, a, k):
-            if h.frozen:
-                raise OutOfSubset("write to frozen list")
             P.log_write(h, ("append",))
             h.items.append(a[0])
             return SNone
@@ -945,7 +943,9 @@ def apply_fn(I, f, args):
     x = args[0]
     if isinstance(x, SNum):
         if x.extended:
-            raise OutOfSubset("conversion of extended float")
+            # assumption A-ext: conversion functions are increasing affine maps (C01 Mono), so under
+            # IEEE arithmetic NaN stays NaN and ±inf stay ±inf
+            return SNum(app(f.t, x.real()), "float", x.nan, x.pinf, x.ninf)
         return SNum(app(f.t, x.real()), "float")
     if isinstance(x, SBool):
         return SNum(app(f.t, I.bool_to_num(x).real()), "float")
